@@ -529,7 +529,7 @@ fn pw_event<T: Form + Copy, R: Form + Copy>(op: &str, p: &Piecewise<T>, s: f64, 
 }
 
 fn random_pw<T: Form + Copy>(rng: &mut Rng) -> Piecewise<T> {
-    let n = 1 + rng.size(5, 12, 4) as usize;
+    let n = if rng.below(20) == 0 { rng.long_len() } else { 1 + rng.size(5, 12, 4) as usize };
     let ends = crate::order::random_ends(rng, n);
     Piecewise { segments: ends.iter().map(|&e| Segment { end: e, poly: T::from_flat(&flat_of::<T>(rng)) }).collect() }
 }
@@ -545,8 +545,14 @@ fn pw_scalar(rng: &mut Rng) -> f64 {
 
 macro_rules! pw_mul {
     ($T:ty, $rng:expr, $sink:expr, $cov:expr) => {{
-        let p: Piecewise<$T> = random_pw($rng);
-        let s = pw_scalar($rng);
+        let mut p: Piecewise<$T> = random_pw($rng);
+        let s = if $rng.below(4) == 0 { *$rng.pick(&[2.0, -1.0, 0.5, 1.0]) } else { pw_scalar($rng) };
+        if $rng.below(4) == 0 {
+            // neighbours related through the scalar: p[i+1] = p[i] * s (also equal pieces for s = 1, mirrored for s = -1)
+            for i in 1..p.segments.len() {
+                p.segments[i].poly = p.segments[i - 1].poly * s;
+            }
+        }
         let alone: Vec<Vec<f64>> = p.segments.iter().map(|x| (x.poly * s).flat()).collect();
         let r = p.clone() * s;
         $sink.ev(pw_event("mul", &p, s, &r, &alone));
@@ -965,8 +971,8 @@ fn sorted_any_ends(rng: &mut Rng, n: usize) -> Vec<f64> {
 
 macro_rules! pwint_case {
     ($T:ty, $kind:expr, $rng:expr, $sink:expr) => {{
-        let n = 1 + $rng.size(5, 12, 4) as usize;
         let log = $kind == "log";
+        let n = if !log && $rng.below(40) == 0 { $rng.long_len().min(65) } else { 1 + $rng.size(5, 12, 4) as usize };
         let ends = if log { sorted_pos_ends($rng, n) } else { sorted_any_ends($rng, n) };
         let ar = <$T as Form>::arity().unwrap();
         let pw: Piecewise<$T> = Piecewise {
@@ -1131,7 +1137,7 @@ pub fn drive_spline(seed: u64, n: usize, sink: &mut Sink) -> usize {
     let mut rng = Rng::new(seed);
     let mut nontrivial = 0;
     for it in 0..n {
-        let len = 3 + rng.size(6, 10, 4) as usize;
+        let len = if it % 40 == 39 { rng.long_len() } else { 3 + rng.size(6, 10, 4) as usize };
         let xs = spline_xs(&mut rng, len);
         let mut ys = spline_ys(&mut rng, len);
         if it % 7 == 0 {
@@ -1272,7 +1278,17 @@ where
     let mut n = 0;
     for &(eps, rel) in &TOLS {
         sink.ev(approx_event(ty, &a, &a, base, base, shape, shape, eps, rel));
-        for p in 0..base.len() {
+        // every position for short values; first, last and a sample of positions for long ones
+        let positions: Vec<usize> = if base.len() <= 40 {
+            (0..base.len()).collect()
+        } else {
+            let mut v = vec![0, 1, base.len() - 2, base.len() - 1, base.len() / 2];
+            for _ in 0..6 {
+                v.push(rng.below(base.len() as u64) as usize);
+            }
+            v
+        };
+        for p in positions {
             for k in 0..3 {
                 let mut fb = base.to_vec();
                 let scale = if eps > 0.0 { eps } else { fb[p].abs().max(1e-300) * f64::EPSILON };
@@ -1300,7 +1316,7 @@ macro_rules! approx_form {
 
 macro_rules! approx_pw {
     ($T:ty, $rng:expr, $sink:expr, $n:expr) => {{
-        let k = 1 + $rng.below(3) as usize;
+        let k = if $rng.below(6) == 0 { *$rng.pick(&[31usize, 32, 33, 65]) } else { 1 + $rng.below(3) as usize };
         let ar = <$T as Form>::arity().unwrap() + 1;
         let mut base: Vec<f64> = Vec::new();
         let ends = crate::order::random_ends($rng, k);
